@@ -115,7 +115,7 @@ def run_check(pid, tier):
     shutil.rmtree(tmpdir, ignore_errors=True)
 
     # ---------------------------------------------------------------- aggregate
-    recs.sort(key=lambda r: r["index"])
+    recs.sort(key=lambda r: (0, r["index"]) if isinstance(r["index"], int) else (1, str(r["index"])))
     counters, checks, skips, tags = Counter(), Counter(), Counter(), Counter()
     judged_cases = judgments = 0
     nontrivial_sigs = set()
@@ -146,6 +146,26 @@ def run_check(pid, tier):
             known_example.setdefault(k, r)
         if r.get("sample") is not None and len(samples) < 4 and r.get("judged", 0) > 0:
             samples.append({"index": r["index"], **(r["sample"] if isinstance(r["sample"], dict) else {"sample": r["sample"]})})
+
+    # ---------------------------------------------------------------- optional extra stage
+    # (thorough tier, or VERIF_SUITE=1): the repository's own tests under the property's contracts
+    extra_ev = None
+    extra_inconclusive = []
+    extra_fn = getattr(prop, "extra_run", None)
+    if extra_fn and (tier in getattr(prop, "EXTRA_TIERS", ("thorough",)) or os.environ.get("VERIF_SUITE")) and not os.environ.get("VERIF_CASES"):
+        ex = extra_fn(tier)
+        extra_ev = ex.get("evidence")
+        extra_inconclusive = list(ex.get("inconclusive", []))
+        for k, v in ex.get("counters", {}).items():
+            counters[k] += v
+        for n_, f in enumerate(ex.get("failures", [])):
+            recs.append({"index": f"suite-{n_}", "judged": 1, "failures": [{"check": f["check"], "detail": f.get("detail"), "known": f.get("known")}], "violated": not f.get("known"), "known": [f["known"]] if f.get("known") else [], "primary": f.get("where"), "tags": ["suite"], "case": {"suite_test": f["test"], "contracts": ex.get("contracts")}, "suite": True})
+        for r in recs:
+            if r.get("suite"):
+                if r["violated"]:
+                    violations.append(r)
+                for k in r["known"]:
+                    known_hits[k] += 1
 
     # ---------------------------------------------------------------- known findings
     lines = []
@@ -211,6 +231,7 @@ def run_check(pid, tier):
         have = counters.get(k, 0) + checks.get(k, 0)
         if have < need:
             inconclusive.append(f"monitor event '{k}' observed {have} times < floor {need}")
+    inconclusive.extend(extra_inconclusive)
     nskipped = sum(1 for r in recs if r.get("judged", 0) == 0)
     if recs and nskipped > 0.5 * len(recs):
         inconclusive.append(f"{nskipped}/{len(recs)} cases were skipped without any judgment")
@@ -242,6 +263,8 @@ def run_check(pid, tier):
         ],
         "exhaustive": False,
     }
+    if extra_ev is not None:
+        cov["repository_suite_under_contracts"] = extra_ev
     extra = getattr(prop, "evidence_extra", None)
     if extra:
         try:
@@ -307,6 +330,19 @@ def run_replay(pid, path):
     with open(path if os.path.isabs(path) else os.path.join(OUT_DIR, path)) as fh:
         payload = common.loads(fh.read())
     case = payload["case"] if "case" in payload else payload
+    if isinstance(case, dict) and "suite_test" in case:
+        from . import suite
+
+        r = suite.replay_test(case["suite_test"], case.get("contracts") or ["selectors", "purity"])
+        listed = {e["key"] for e in known_entries(pid) if e.get("status") == "known"}
+        bad = [f for f in r["failures"] if not f.get("known") or f["known"] not in listed]
+        print(f"[{pid} replay suite test {case['suite_test']}] contract failures={len(r['failures'])} {r['evidence'].get('pytest_tail', '')}")
+        for f in r["failures"]:
+            print(("  known[%s] " % f["known"] if f.get("known") else "  FAIL ") + fmt_fail(f))
+        if bad:
+            print(f"VIOLATION property={pid} replay={path}")
+            return 1
+        return 2 if r["inconclusive"] else 0
     rec = worker.run_case(prop, case)
     print(f"[{pid} replay] judged={rec['judged']} failures={len(rec['failures'])} skips={rec['skips']}")
     for f in rec["failures"]:
